@@ -39,7 +39,14 @@ var pureStd = map[string]bool{
 	"unicode/utf8.DecodeRuneInString": true, "unicode/utf8.RuneLen": true, "unicode/utf8.RuneCountInString": true, "unicode/utf8.DecodeRune": true,
 	"unicode.IsSpace": true, "unicode.IsDigit": true, "unicode.IsLetter": true, "unicode.IsUpper": true, "unicode.ToLower": true, "unicode.ToUpper": true,
 	"math.IsNaN": true, "math.IsInf": true, "math.Floor": true, "math.Trunc": true, "math.Abs": true,
-	"reflect.TypeOf": true, "reflect.ValueOf": true, "reflect.DeepEqual": true,
+	"reflect.TypeOf": true, "reflect.ValueOf": true, "reflect.DeepEqual": true, "reflect.Zero": true, "reflect.Indirect": true,
+	"reflect.(Value).Len": true, "reflect.(Value).Index": true, "reflect.(Value).IsValid": true, "reflect.(Value).IsZero": true, "reflect.(Value).IsNil": true,
+	"reflect.(Value).Kind": true, "reflect.(Value).Type": true, "reflect.(Value).Interface": true, "reflect.(Value).Elem": true, "reflect.(Value).Field": true,
+	"reflect.(Value).FieldByName": true, "reflect.(Value).NumField": true, "reflect.(Value).Int": true, "reflect.(Value).Uint": true, "reflect.(Value).Float": true,
+	"reflect.(Value).String": true, "reflect.(Value).Bool": true, "reflect.(Value).CanInt": true, "reflect.(Value).CanUint": true, "reflect.(Value).CanFloat": true,
+	"reflect.(Value).CanAddr": true, "reflect.(Value).CanSet": true, "reflect.(Value).CanInterface": true, "reflect.(Value).MapKeys": true, "reflect.(Value).MapIndex": true,
+	"reflect.(Value).Slice": true, "reflect.(Value).Cap": true, "reflect.(Value).MethodByName": true, "reflect.(Value).NumMethod": true, "reflect.(Value).Addr": true,
+	"time.(Time).Unix": true,
 	"net/url.QueryUnescape": true, "net/url.PathUnescape": true, "net/url.ParseQuery": true,
 	"encoding/base64.(*Encoding).DecodeString": true, "encoding/base64.(*Encoding).EncodeToString": true,
 	"regexp.MatchString": true, "regexp.MustCompile": true, "regexp.Compile": true,
@@ -677,8 +684,15 @@ func (g *Gen) ghostKeyFor(name string) (string, string) {
 // ifaceContract finds a contract declared on the interface method being invoked.
 func (g *Gen) ifaceContract(c *ssa.CallCommon) *Contract {
 	it := c.Value.Type()
+	scope := ""
+	if g.con != nil {
+		scope = g.con.Pkg + ":"
+	}
 	if n, ok := types.Unalias(it).(*types.Named); ok && n.Obj().Pkg() != nil {
 		key := n.Obj().Pkg().Name() + "." + n.Obj().Name() + "." + c.Method.Name()
+		if con := g.P.contracts[scope+key]; con != nil && scope != "" {
+			return con
+		}
 		if con := g.P.contracts[key]; con != nil {
 			return con
 		}
@@ -688,6 +702,9 @@ func (g *Gen) ifaceContract(c *ssa.CallCommon) *Contract {
 		if recvT := c.Method.Type().(*types.Signature).Recv(); recvT != nil {
 			if rn, ok := types.Unalias(recvT.Type()).(*types.Named); ok {
 				key := mpkg.Name() + "." + rn.Obj().Name() + "." + c.Method.Name()
+				if con := g.P.contracts[scope+key]; con != nil && scope != "" {
+					return con
+				}
 				if con := g.P.contracts[key]; con != nil {
 					return con
 				}
